@@ -381,12 +381,21 @@ static int s_setsockopt(ares_socket_t, ares_socket_opt_t opt, const void *, ares
   }
   return 0;
 }
+static bool g_tcp_blackhole = false; // TCP connects never complete (the handshake is never answered)
 static int s_connect(ares_socket_t fd, const struct sockaddr *sa, ares_socklen_t, unsigned int, void *)
 {
   VS *s = vs_of(fd);
   if (!s) return -1;
   uint32_t ip = ntohl(((const struct sockaddr_in *)sa)->sin_addr.s_addr);
   s->server   = (int)(ip - 0x0a000001u);
+  if (g_tcp_blackhole && s->tcp) {
+    // the descriptor never becomes writable: its send buffer is filled and the peer never reads
+    static char junk[4096];
+    while (exb_raw_write(fd, junk, sizeof junk) > 0) {
+    }
+    errno = EINPROGRESS;
+    return -1;
+  }
   return 0;
 }
 static ares_ssize_t s_recvfrom(ares_socket_t fd, void *buf, size_t len, int, struct sockaddr *addr, ares_socklen_t *alen, void *)
@@ -749,6 +758,16 @@ static std::vector<Prog> programs()
       }
     for (auto &c : add) v.push_back(c);
   }
+  v.push_back({ "L7-tcp-connect-never-completes-second-query-on-the-half-open-connection", "c07", ARES_FLAG_USEVC, 0, 0, 1, [](ares_channel_t *ch) {
+                 // the server never answers the TCP handshake: the first query times out and leaves the half-open
+                 // connection behind; the second one is queued on it from a client thread while the event thread
+                 // sleeps - nothing but its own deadline can end it
+                 q_query(ch, "first.example.com");
+                 wait_all(ch, "L7 first");
+                 Client *a = spawn([ch] { q_query(ch, "second.example.com"); });
+                 join(a);
+                 wait_all(ch, "L7");
+               } });
   v.push_back({ "L4-tcp-idle-kept-open-then-silent", "c07", ARES_FLAG_STAYOPEN | ARES_FLAG_USEVC, 1, 0, 1, [](ares_channel_t *ch) {
                  q_query(ch, "warm.example.com");
                  wait_all(ch, "L4 warm-up");
@@ -782,6 +801,7 @@ static void run_program(const Prog &p, int evsys, const unsigned char *prefix, i
   g_active        = true;
   g_reply_mode[0] = p.reply0;
   g_reply_mode[1] = p.reply1;
+  g_tcp_blackhole = strstr(p.name, "connect-never-completes") != nullptr;
   ares_library_init_mem(ARES_LIB_INIT_ALL, m_malloc, m_free, m_realloc);
   struct ares_options o;
   memset(&o, 0, sizeof o);
